@@ -70,6 +70,19 @@ func padding(kind string, k int) string {
 			return "\n"
 		}
 		return "\n#" + strings.Repeat("c", k-2) + "\n"
+	case "special": // comment text made of characters that mean something elsewhere in the grammar
+		var sb strings.Builder
+		sb.WriteString("\n")
+		texts := []string{"# |@ not a chain |.p", "# x := \"unterminated { [ ( `", "# }> ]) }} ' ?c \\ \\1", "# |", "#|$", "# a | b || c |& d", "# #{ } #", "# if else return yield defer raise"}
+		i := 0
+		for sb.Len() < k || i < len(texts) {
+			sb.WriteString(texts[i%len(texts)] + "\n")
+			i++
+			if i > 4000 {
+				break
+			}
+		}
+		return sb.String()
 	case "mixed":
 		var sb strings.Builder
 		sb.WriteString("\n")
@@ -148,11 +161,15 @@ func rep(k int) string { return strings.Repeat("a", k) }
 var tokenKinds = []tokenKind{
 	{"string", func(k int) (string, string) { return `x := "` + rep(k) + `"` + "\nx\n", "" }},
 	{"raw-string", func(k int) (string, string) { return "x := `" + rep(k) + "`\nx\n", "" }},
-	{"embedded-str-piece", func(k int) (string, string) { return `x := "` + rep(k) + `#{1}` + rep(k) + `#{2}` + rep(k) + `"` + "\nx\n", "" }},
+	{"embedded-str-piece", func(k int) (string, string) {
+		return `x := "` + rep(k) + `#{1}` + rep(k) + `#{2}` + rep(k) + `"` + "\nx\n", ""
+	}},
 	{"comment", func(k int) (string, string) { return "x := 1 #" + rep(k) + "\nx\n", "" }},
 	{"identifier", func(k int) (string, string) { return "v" + rep(k) + " := 1\nv" + rep(k) + "\n", "" }},
 	{"symbol", func(k int) (string, string) { return "x := 's" + rep(k) + "\nx\n", "" }},
-	{"int", func(k int) (string, string) { return "x := 1" + strings.Repeat("_0", 0) + strings.Repeat("0", 0) + " + " + intTok(k) + "\nx\n", "" }},
+	{"int", func(k int) (string, string) {
+		return "x := 1" + strings.Repeat("_0", 0) + strings.Repeat("0", 0) + " + " + intTok(k) + "\nx\n", ""
+	}},
 }
 
 // intTok: an int literal of k characters whose value fits (leading zeros and separators)
@@ -258,6 +275,9 @@ func gen(thorough bool, emit func(tcase)) {
 	for bi, b := range bases {
 		marks := strings.Count(b, "§")
 		for m := 0; m < marks; m++ {
+			for _, k := range []int{0, 64, 1024, 2048} {
+				emit(tcase{Mode: "pad", Base: bi, Mark: m, Kind: "special", Size: k})
+			}
 			for _, kind := range []string{"blank", "comment", "mixed"} {
 				wide := thorough && (bi == 0 && m <= 1 || bi == 2 && m == 0)
 				for _, k := range sizes(thorough, wide) {
